@@ -280,6 +280,8 @@ def main(argv):
                 "{READY, HELLO(wrong creds), WELCOME, INITIATE, ERROR, unknown, data, v2 identity}, re-chunked, then an application send; "
                 "15% of PLAIN cases know the credentials (model correspondence only); non-trivial = engine emitted an action; distinct by JSON")
     C.proof_stage(res, PROP, ["theories/Corr/EngCorr.vo"])
+    from . import optlib
+    optlib.options_stage(res, PROP, [44, 45, 46, 47, 49, 48, 1202], n_quick=330, theorems_note='C06_mech_option_enables_security, C06_configured_mechanism_stays, C06_noise_flag_semantics, C06_configured_options_no_bypass')
     rng = random.Random(seed)
     cases = C.load_corpus(PROP, "eng") + gen_cases(rng, 500 if tier == "quick" else 6000)
     for c in cases:
